@@ -55,7 +55,7 @@ class Check:
         payload = dict(payload)
         payload.update({"property": self.prop, "kind": kind, "seed": self.seed, "tier": self.tier})
         with open(path, "w") as f:
-            json.dump(payload, f, indent=1, ensure_ascii=False)
+            json.dump(payload, f, indent=1, ensure_ascii=True)
         self.violations.append((path, no_input))
         return path
 
@@ -93,7 +93,7 @@ class Check:
         }
         os.makedirs(os.path.join(VERIF, "evidence"), exist_ok=True)
         with open(os.path.join(VERIF, "evidence", self.prop + ".json"), "w") as f:
-            json.dump(ev, f, indent=1, ensure_ascii=False)
+            json.dump(ev, f, indent=1, ensure_ascii=True)
         for k in self.known:
             print("KNOWN-FINDING: property=%s %s" % (self.prop, k))
         for (path, no_input) in self.violations:
